@@ -4,6 +4,7 @@ Grammar (line oriented; `#` starts a comment outside blocks; a block is  <<< ...
 
   unit NAME
   uses <<< rust `use` lines placed before verus!{} >>>
+  tail <<< plain rust placed after the verus!{} block (declarations of opaque external types) >>>
   prelude <<< verus text: spec fns, lemmas, std contracts local to this unit >>>
   include FILE                      (another prelude text file, relative to /verif/spec)
   opaque TYPE-PREFIX ...            (R6: struct field types starting with one of these become `Opaque`)
@@ -74,6 +75,7 @@ class Unit:
     def __init__(self):
         self.name = None
         self.uses = ""
+        self.tail = ""
         self.prelude = []           # list of (label, text)
         self.opaque = []
         self.dropfields = []
@@ -175,6 +177,8 @@ def parse(path, include_dir=None, part=False):
             u.name = word(0)
         elif kw == "uses":
             u.uses += block() + "\n"
+        elif kw == "tail":
+            u.tail += block() + "\n"
         elif kw == "prelude":
             u.prelude.append((os.path.basename(path), block()))
         elif kw == "include":
@@ -211,6 +215,7 @@ def parse(path, include_dir=None, part=False):
             u.rewrites += sub.rewrites
             u.prelude += sub.prelude
             u.uses += sub.uses
+            u.tail += sub.tail
             u.assumes += sub.assumes
             cur = None
         elif kw == "opaque_type":
